@@ -1050,12 +1050,24 @@ func (e *c20Env) call(ep *c20EP, a c20Args, o c20Opts, limMode string, rs c20Res
 		if i := strings.LastIndex(string(doc), "<"); i > 0 {
 			doc = doc[:i-r.Intn(8)-1]
 		}
+	case "short-body", "chunked-cut":
+		// status line and headers arrive intact, the body does not (see srv.BrokenBodyModes);
+		// the body alternates between an XML decoy and the API's plain-text explanation
+		if rs.Size > 0 {
+			doc, _ = ep.body(r, false, a, rs.Size)
+		} else {
+			doc, ctype = []byte("The object could not be served, says the fake API, and then the line went dea"), "text/plain; charset=utf-8"
+		}
 	case "text":
 		doc, ctype = []byte("The object could not be served, says the fake API."), "text/plain; charset=utf-8"
 	case "none":
 		ctype = ""
 	}
 	e.api.Respond(rs.Status, ctype, doc)
+	if rs.Body == "short-body" || rs.Body == "chunked-cut" {
+		e.api.Hangup(rs.Body)
+		res.Add("calls_status_with_broken_body", 1)
+	}
 
 	// the limiter
 	e.lim.Err = nil
@@ -1370,6 +1382,23 @@ func c20Exec(c fw.Case) *fw.Result {
 				k++
 			}
 		}
+		// every non-200 status whose body breaks after status line and headers arrived intact:
+		// the status was received, so its typed error is due (ordinary oracle of call)
+		for _, st := range c20Statuses {
+			if st == 200 || st == 204 {
+				continue
+			}
+			for m, mode := range srv.BrokenBodyModes {
+				for l := 0; l < 2; l++ {
+					o := ep.opts[k%len(ep.opts)]
+					if o.Invalid {
+						o = ep.opts[0]
+					}
+					env.call(ep, ep.args[k%len(ep.args)], o, c20LimiterModes[l], c20Resp{st, (m + l) % 2, mode})
+					k++
+				}
+			}
+		}
 	case "shapes":
 		// answer-shape repetition: many well-formed 200 answers of growing size, so that the
 		// PRNG-chosen document layouts (block order of a changeset download, element mix of
@@ -1460,7 +1489,7 @@ func init() {
 			"x option set (none / At in UTC, in a zone, with nanoseconds; seven valid and two invalid notes option lists) x base URL (server root, /api/0.6, deep prefix, library default host, trailing slash) x access path (Datasource with client, Datasource falling back to DefaultDatasource.Client, package-level function) " +
 			"x limiter (absent, present, failing) x response (200 with 0/1/2/5 elements, 200 truncated, 204, and 400 403 404 409 410 414 429 500 503 each with an XML decoy body and a text body). " +
 			"thorough enumerates the whole product (one case per endpoint x base x access path, one httptest server per case); quick runs one sweep per endpoint over every response and limiter mode, one URL-length ladder per URL-growing endpoint (every length x limiter absent/present x 200 with 1 and 5 elements and a served 414) plus 60 PRNG-chosen slices of 32 calls. " +
-			"Transport faults (every endpoint x {round tripper returning EOF / unexpected EOF / ECONNRESET / EPIPE / ECONNREFUSED / timeout, first attempt only or always; server closing the connection before the status line, inside the header, inside the body} x limiter absent/present; connections not reused) are asserted on the number of RoundTrip calls, the limiter and 'an error, no data' only. Answer-shape repetition: changeset-download / map / way-full / relation-full with 2, 3, 5, 9 elements over and over (download: one block per element with alternating actions, random runs, grouped, empty blocks). " +
+			"Transport faults (every endpoint x {round tripper returning EOF / unexpected EOF / ECONNRESET / EPIPE / ECONNREFUSED / timeout, first attempt only or always; server closing the connection before the status line, inside the header, inside the body} x limiter absent/present; connections not reused) are asserted on the number of RoundTrip calls, the limiter and 'an error, no data' only. In the same cases every non-200 status is also served with intact status line and headers but a body that breaks (Content-Length beyond what is sent, chunked without the last chunk; XML decoy or text) and judged by the ordinary status oracle. Answer-shape repetition: changeset-download / map / way-full / relation-full with 2, 3, 5, 9 elements over and over (download: one block per element with alternating actions, random runs, grouped, empty blocks). " +
 			"A signature is endpoint|options|base|access|limiter|status/body/size (or fault:<mode>); distinct_nontrivial counts distinct signatures.",
 		Assumptions: []string{
 			"query strings are compared as parsed parameter sets (own parser); a trailing '?' or '&' and parameter order are insignificant; multi-fetch id lists are compared as sets",
@@ -1472,6 +1501,7 @@ func init() {
 			"errors are classified with errors.As, the limiter's error with errors.Is; error texts are never compared; nil and empty slices are equal; a non-nil but zero-valued *osm.OSM / *osm.Change next to an error is not counted as data",
 			"the multi-fetch functions of this library take plain ids (no version suffix form such as 2v3 exists in its API), so only the plain form is enumerated",
 			"transport faults: the statement lists statuses, not transport errors, so only the RoundTrip count (exactly one GET asked of the http.Client), the limiter (a Wait before the first GET, never more GETs than Waits) and 'some error, no data' are asserted; a body cut in mid-air asserts no error at all, only 'no data next to an error'; connection reuse is off in these cases because net/http itself replays a GET on a reused connection that dies before the first response byte",
+			"a non-200 answer whose status line and headers arrived but whose body breaks off has been received with that status: its typed error is asserted as for a complete answer (the body of an error answer carries nothing the call returns); a stalled body (wall-clock) is not generated",
 			"in an osm.Change an action (create/modify/delete) without elements compares equal whether nil or an empty document",
 			"Wait must be called at least once before the request (sequence numbers of one shared atomic counter); the number of Wait calls is not asserted",
 		},
